@@ -51,7 +51,8 @@ Record ctx := mkCtx { cx_schema : ischema; cx_all : list ischema;
    f_sel_scalar: a select path runs into a scalar (or a non-numeric segment meets an array) in a
    stored point; f_sel_nonfinite: the answer would carry a stored NaN/Inf; f_depth: nesting depth *)
 Record flags := mkFl { f_finite : bool; f_sel_scalar : bool; f_sel_nonfinite : bool; f_depth : Z }.
-Record obs := mkObs { o_status : Z; o_panic : bool; o_changed : bool; o_died : bool }.
+(* o_over: after the request some stored point is larger than the point size limit of its collection's plan *)
+Record obs := mkObs { o_status : Z; o_panic : bool; o_changed : bool; o_died : bool; o_over : bool }.
 
 Record c18case := mkCase { k_tag : string; k_ver : Z; k_ep : endpoint; k_class : rclass;
                            k_hdr : hdr; k_uri : uri; k_ct : ctype; k_body : abody;
@@ -219,6 +220,7 @@ Definition verdict (c : c18case) : N :=
   match x with XBad => 299%N | _ =>
   if o_died o then
     (if offset_overflows c then 114 else if deep_msgpack c then 117 else 105)%N
+  else if o_over o then 118%N
   else if is5xx (o_status o) || o_panic o then
     match x with
     | XPanic => 111%N
